@@ -81,3 +81,21 @@ package actions
 //@   ensures[modification-taken] typeis(other, *ModifyResponseAction) ==> result == other
 //@   ensures[retries-merge] typeis(other, *RetryRequestAction) ==> typeis(result, *RetryRequestAction) && result.(*RetryRequestAction) != nil && mergedOf(result.(*RetryRequestAction).HeadersToSet, action.HeadersToSet, other.(*RetryRequestAction).HeadersToSet)
 //@   ensures[result-ok] respOK(result)
+
+// ---------------------------------------------------------------- the encoding handed to the proxy
+// the SPOE action list as a ghost map of variables set (name -> value) and their number
+//@ ghost var gVars gmap[string]any
+//@ ghost var gVarCount int
+//@ pure utils.DumpHeaders
+//@ extern Actions.SetVar
+//@   params scope, name, value
+//@   modifies gVars, gVarCount
+//@   ensures gVars[name] == value && gVarCount == old(gVarCount) + 1 && forall(o, string, o != name ==> gVars[o] == old(gVars[o]))
+
+// an early response is encoded as: the early-response flag, its status, its body bytes and its dumped headers - nothing else
+//@ func (*EarlyResponseAction).ReqToSpoeActions
+//@   prop C07
+//@   requires a != nil
+//@   modifies gVars, gVarCount
+//@   on entry do gVarCount = 0
+//@   ensures[exactly-status-body-headers] gVarCount == 4 && gVars["return_early_response"] == box(true) && gVars["status_code"] == box(a.Status) && gVars["response_body"] == box(str2bytes(a.Body)) && gVars["response_headers"] == box(utils.DumpHeaders(a.Headers))
